@@ -270,7 +270,7 @@ def run(chk, gate, status):
         'exhaustive': True,
         'exhaustive_bound': '3 kinds x 40 x 40 unit pairs (the function is linear in the amount and algebraic in mw, density, activity)',
         'disagreements_checked': disagreements, 'samples': samples, 'oracle_failures': oracle_fail,
-        'compose_roundtrip_triples': comp, 'translator_status': status.get('UnitsGen'),
+        'compose_roundtrip_triples': comp, 'translator_status': status.get('UnitsGen'), 'symbolic_extraction_status': status.get('UnitsSym'), 'tie_used': (status.get('tie') or {}).get('UnitsTie'),
     }
 
 
